@@ -126,3 +126,19 @@ let () =
           (match pas_rotation a with None -> "-" | Some z -> string_of_int (int_of_z z)))
           (pas_doc_eff doc.pa_st doc.pa_root))
     | _ -> "?args")
+
+(* page-list level of handlePageSpecs (Struct/PageSel.v):  psel <pages of the primary> <f:i,i,...;f:i,...> <collate values|->
+   -> f.i.o (the page object itself) or f.i.c<n> (n-th shallow copy), joined by ',' *)
+let () =
+  register "psel" (fun args -> match args with
+    | [n0; sels; cs] ->
+      let sel_of s =
+        let k = String.index s ':' in
+        (nat_of_int (int_of_string (String.sub s 0 k)),
+         List.map (fun x -> nat_of_int (int_of_string x)) (split ',' (String.sub s (k + 1) (String.length s - k - 1)))) in
+      let out = ps_handle (nat_of_int (int_of_string n0)) (List.map sel_of (split ';' sels))
+          (List.map (fun x -> nat_of_int (int_of_string x)) (split ',' cs)) in
+      String.concat "," (List.map (fun p -> match p with
+          | PsOrig (f, i) -> Printf.sprintf "%d.%d.o" (int_of_nat f) (int_of_nat i)
+          | PsCopy (f, i, n) -> Printf.sprintf "%d.%d.c%d" (int_of_nat f) (int_of_nat i) (int_of_nat n)) out)
+    | _ -> "?args")
